@@ -314,7 +314,9 @@ def analyse(ctx, prop, cfg, res, oracle):
         # never a silent skip: a crashing whole run is a broken obligation (the component stages go on searching)
         ctx.broke(f"{prop}: whole-run configuration {key} crashed (rc={res.rc})", res.log[-1500:])
         ctx.count("wholerun_rc_nonzero")
-        return
+        if not res.trace:
+            return
+        # continued search for a failing input: the events recorded up to the crash are analysed like any trace
     batches, metas = [], []
     for tr in res.trace:
         per = build(cfg, tr["events"])
@@ -437,6 +439,7 @@ def make_cfg(seed, wide=None):
     if wide == "daylight":
         # fractional daylight hours (fractional minutes of a workday) with surveys that take more than one day
         cfg["daylight"] = rng.choice([7.625, 6.8125, 5.375])
+        cfg["consider_weather"] = True      # small work plans + weather: days on which every planned site is blocked
         for m, mc in cfg["methods"].items():
             if mc.get("deployment_type") == "mobile" and mc.get("measurement_scale") == "component":
                 mc["consider_daylight"] = True
